@@ -9,7 +9,18 @@ sys.path.insert(0, ".")
 from gen import lib
 lib.coq_makefile()
 PY
-(cd coq && timeout 3000 make -j16 2>&1 | tail -5)
-[ -f harness/ds_driver/Cargo.lock ] || cp /repo/Cargo.lock harness/ds_driver/Cargo.lock
-(cd harness/ds_driver && timeout 3000 cargo build --offline 2>&1 | tail -3)
+(cd coq && timeout 3000 make -j16 2>&1 | tail -5) || true
+for d in harness/*/; do
+  [ -f "$d/Cargo.toml" ] || continue
+  [ -f "$d/Cargo.lock" ] || cp /repo/Cargo.lock "$d/Cargo.lock"
+  (cd "$d" && timeout 3000 cargo build --offline 2>&1 | tail -2) || true
+done
+# warm the FRONT driver and the dependency graph of generated crates
+python3 - <<'PY' || true
+import sys
+sys.path.insert(0, ".")
+from gen import prog
+prog.front_run([("warm", "ascent", "relation a(i32); relation b(i32); b(x) <-- a(x);")])
+prog.build_and_run("warm", [dict(id="w", text="relation a(i32); relation b(i32); b(x) <-- a(x);", macro="ascent", rels=[("a", 1, "rel"), ("b", 1, "rel")], scripts=[[("set", {"a": [(1,)]}), ("run",), ("snap",)]])], features=("verif_hooks",))
+PY
 echo setup done
